@@ -35,8 +35,55 @@ mod ops_serde {
 
 /// C19 clause (2): `EstimatedLog2::log2_bounds` in this build (std: f32::log2, no_std: table)
 mod ops_log {
-    pub fn dispatch(_op: &str, _args: &[&str]) -> Option<verif_harness::util::Res> {
-        None
+    use dashu_base::EstimatedLog2;
+    use verif_harness::util::*;
+
+    fn bits(b: (f32, f32)) -> String {
+        format!("{:x} {:x}", b.0.to_bits(), b.1.to_bits())
+    }
+
+    pub fn dispatch(op: &str, args: &[&str]) -> Option<Res> {
+        if !op.starts_with("lg.") {
+            return None;
+        }
+        Some((|| -> Res {
+            match op {
+                "lg.p" => {
+                    let ty = arg(args, 0)?;
+                    let x = p_ubig(arg(args, 1)?)?;
+                    let v = u128::try_from(&x).map_err(|_| "bad-arg prim".to_string())?;
+                    Ok(match ty {
+                        "u8" => bits(u8::try_from(v).map_err(|_| "bad-arg u8".to_string())?.log2_bounds()),
+                        "u16" => bits(u16::try_from(v).map_err(|_| "bad-arg u16".to_string())?.log2_bounds()),
+                        "u32" => bits(u32::try_from(v).map_err(|_| "bad-arg u32".to_string())?.log2_bounds()),
+                        "u64" => bits(u64::try_from(v).map_err(|_| "bad-arg u64".to_string())?.log2_bounds()),
+                        "u128" => bits(v.log2_bounds()),
+                        _ => return Err(format!("bad-arg type {}", ty)),
+                    })
+                }
+                "lg.u" => Ok(bits(p_ubig(arg(args, 0)?)?.log2_bounds())),
+                "lg.i" => Ok(bits(p_ibig(arg(args, 0)?)?.log2_bounds())),
+                "lg.range" => {
+                    // checksum over the bounds of every u16 value in [lo, hi), through the widest type
+                    // that still takes the 16-bit path (the impls of u16..u128 agree on such values)
+                    let lo = p_usize(arg(args, 0)?)?;
+                    let hi = p_usize(arg(args, 1)?)?;
+                    let mut acc: u128 = 0;
+                    for x in lo..hi {
+                        let b = (x as u16).log2_bounds();
+                        let b32 = (x as u32).log2_bounds();
+                        let b128 = (x as u128).log2_bounds();
+                        if b.0.to_bits() != b32.0.to_bits() || b.1.to_bits() != b32.1.to_bits()
+                            || b.0.to_bits() != b128.0.to_bits() || b.1.to_bits() != b128.1.to_bits() {
+                            return Ok(format!("types-disagree-at-{}", x));
+                        }
+                        acc = (acc * 1000003 + b.0.to_bits() as u128 * 65599 + b.1.to_bits() as u128) % 2305843009213693951;
+                    }
+                    Ok(format!("{:x}", acc))
+                }
+                _ => Err(format!("bad-op {}", op)),
+            }
+        })())
     }
 }
 
